@@ -137,8 +137,10 @@ def plan(prop, tier):
         g.append(("rel", "native", 8, []))
     elif prop == "C14":
         g.append(("dbg", "native", 8, []))
+        # a race that does not change a result is invisible to the result monitor: ThreadSanitizer
+        # observes the concurrent histories in both tiers
+        g.append(("tsan", "tsan", 4 if q else 8, []))
         if not q:
-            g.append(("tsan", "tsan", 8, []))
             g.append(("miri", "miri", 6, ["--cases", "6"]))
     elif prop in ("C01", "C02", "C03", "C04", "C05", "C06", "C08", "C11", "C12", "C13", "C15"):
         g.append(("dbg", "native", 16, []))
@@ -596,7 +598,7 @@ def main(argv):
         except BuildError as e:
             log(str(e))
             rc = 2
-        for v in ("asan", "miri"):
+        for v in ("asan", "miri", "tsan"):
             try:
                 build_variant(v)
                 log("built " + v)
